@@ -44,6 +44,11 @@ func (p *planner) analyzeScript() {
 			p.labelsJoinIdx = i
 			break
 		}
+		// UnwrapPlanner reads the label (also a stream label) from the labels column
+		if ppl.Unwrap != nil {
+			p.labelsJoinIdx = i
+			break
+		}
 	}
 
 	p.renewMainAfter = make([]bool, len(pipeline))
